@@ -14,9 +14,10 @@ use std::collections::{BTreeMap, BTreeSet};
 use std::panic::AssertUnwindSafe;
 use std::path::{Path, PathBuf};
 
-/// the one defect of the unchanged tree (file_filter.rs 93-117): a single-line marker of one
-/// dimension is ignored on a line that lies inside a region of the other dimension only
-const FINDING: &str = "C16-marker-inside-other-region";
+// History: before /repo commit c7806a2 a single-line marker of one dimension was ignored on a
+// line lying only in a region of the other dimension (finding C16-marker-inside-other-region,
+// fixed). Its minimal witnesses are the first three corpus cases of `witnesses()`: they must
+// pass, and a recurrence is an ordinary violation (no matcher, no finding tag).
 
 #[derive(Clone, Copy, PartialEq)]
 enum Place {
@@ -323,8 +324,6 @@ fn spec_of(opts: &[bool; 6], bs: &[[bool; 6]], readable: bool) -> Spec {
 #[derive(PartialEq, Clone, Debug)]
 enum Verdict {
     Holds,
-    /// every deviation is an instance of the named defect
-    Known(String),
     Fails(String),
 }
 
@@ -338,7 +337,6 @@ fn judge(
     impl_branch: &dyn Fn(u32) -> bool,
 ) -> Verdict {
     let len = spec.line.len() - 1;
-    let mut known = vec![];
     for k in keys {
         if Some(k) == phantom {
             continue;
@@ -349,41 +347,44 @@ fn judge(
         let want_b = inside && spec.branch[n];
         let got_l = impl_line(k);
         let got_b = impl_branch(k);
-        if got_l != want_l {
-            if want_l && !got_l && spec.line_marker[n] && spec.in_br_region[n] && !spec.in_line_region[n]
-            {
-                known.push(format!("line {}: line marker inside a branch region, line data kept", n));
+        let why = |marker: bool, region: bool, other: bool| {
+            if !inside {
+                "it is not a line of the file".to_string()
             } else {
-                return Verdict::Fails(format!(
-                    "line {}: line data {} but the markers say {}",
-                    k,
-                    if got_l { "removed" } else { "kept" },
-                    if want_l { "removed" } else { "kept" }
-                ));
+                format!(
+                    "own single-line marker: {}, inside own region: {}, inside a region of the other kind: {}",
+                    marker, region, other
+                )
             }
+        };
+        if got_l != want_l {
+            return Verdict::Fails(format!(
+                "line {}: line data {} but the markers say {} ({})",
+                k,
+                if got_l { "removed" } else { "kept" },
+                if want_l { "removed" } else { "kept" },
+                if inside {
+                    why(spec.line_marker[n], spec.in_line_region[n], spec.in_br_region[n])
+                } else {
+                    why(false, false, false)
+                }
+            ));
         }
         if got_b != want_b {
-            if want_b && !got_b && spec.br_marker[n] && spec.in_line_region[n] && !spec.in_br_region[n]
-            {
-                known.push(format!(
-                    "line {}: branch-line marker inside a line region, branch data kept",
-                    n
-                ));
-            } else {
-                return Verdict::Fails(format!(
-                    "line {}: branch data {} but the markers say {}",
-                    k,
-                    if got_b { "removed" } else { "kept" },
-                    if want_b { "removed" } else { "kept" }
-                ));
-            }
+            return Verdict::Fails(format!(
+                "line {}: branch data {} but the markers say {} ({})",
+                k,
+                if got_b { "removed" } else { "kept" },
+                if want_b { "removed" } else { "kept" },
+                if inside {
+                    why(spec.br_marker[n], spec.in_br_region[n], spec.in_line_region[n])
+                } else {
+                    why(false, false, false)
+                }
+            ));
         }
     }
-    if known.is_empty() {
-        Verdict::Holds
-    } else {
-        Verdict::Known(known.join("; "))
-    }
+    Verdict::Holds
 }
 
 /// The empty piece after the final LF (or the single empty piece of an empty file) is a "line"
@@ -768,10 +769,8 @@ fn evaluate(rep: &mut Report, ctx: &Ctx, cases: &[Case], tag: &str) {
                                     }
                                 },
                             );
-                            match (&v, v2) {
-                                (_, Verdict::Fails(w)) => v = Verdict::Fails(format!("rewrite_paths: {}", w)),
-                                (Verdict::Holds, Verdict::Known(w)) => v = Verdict::Known(w),
-                                _ => {}
+                            if let Verdict::Fails(w) = v2 {
+                                v = Verdict::Fails(format!("rewrite_paths: {}", w));
                             }
                         }
                     }
@@ -861,34 +860,15 @@ fn evaluate(rep: &mut Report, ctx: &Ctx, cases: &[Case], tag: &str) {
     for (i, c) in cases.iter().enumerate() {
         match &verdicts[i] {
             Verdict::Holds => {}
-            Verdict::Known(w) => {
-                rep.count("oracle.known_defect_cases");
-                let already = rep
-                    .failures
-                    .iter()
-                    .filter(|f| f.finding.as_deref() == Some(FINDING))
-                    .count();
-                if already < 40 {
-                    let (mc, mw) = if already < 6 {
-                        shrink(ctx, c, &verdicts[i])
-                    } else {
-                        (c.clone(), w.clone())
-                    };
-                    let mut cj = case_json(&mc);
-                    cj["impl_create"] = json!(create_text(ctx, &mc));
-                    rep.fail(
-                        "oracle",
-                        Some(FINDING),
-                        format!("the unchanged code keeps data the markers exclude (minimised): {}", mw),
-                        cj,
-                    );
-                } else {
-                    rep.findings_seen.insert(FINDING.to_string());
-                }
-            }
             Verdict::Fails(w) => {
-                rep.count("oracle.unexplained_failures");
-                let (mc, mw) = shrink(ctx, c, &verdicts[i]);
+                rep.count("oracle.failures");
+                // rep.fail keeps 40 per class: do not spend time shrinking beyond that
+                let stored = rep.failures.iter().filter(|f| f.kind == "oracle").count();
+                let (mc, mw) = if stored < 40 {
+                    shrink(ctx, c, &verdicts[i])
+                } else {
+                    (c.clone(), w.clone())
+                };
                 let mut cj = case_json(&mc);
                 cj["impl_create"] = json!(create_text(ctx, &mc));
                 cj["before_shrinking"] = json!(w);
@@ -982,17 +962,14 @@ fn quick_verdict(ctx: &Ctx, c: &Case) -> Verdict {
 }
 
 fn same_class(a: &Verdict, b: &Verdict) -> bool {
-    matches!(
-        (a, b),
-        (Verdict::Known(_), Verdict::Known(_)) | (Verdict::Fails(_), Verdict::Fails(_))
-    )
+    matches!((a, b), (Verdict::Fails(_), Verdict::Fails(_)))
 }
 
 /// greedy shrinking on the structured form: drop lines, clear markers, switch options off,
 /// simplify fillers and line endings, while the verdict stays in the same class
 fn shrink(ctx: &Ctx, c: &Case, v: &Verdict) -> (Case, String) {
     let text_of = |v: &Verdict| match v {
-        Verdict::Known(w) | Verdict::Fails(w) => w.clone(),
+        Verdict::Fails(w) => w.clone(),
         Verdict::Holds => String::new(),
     };
     let spec = match (&c.spec, c.kind) {
@@ -1119,7 +1096,8 @@ fn opts_of(mask: u32) -> [bool; 6] {
     o
 }
 
-/// minimal witnesses of the defect and the fixture of the repository's own test; run first
+/// corpus, run first: the minimal witnesses of the fixed defect (they must pass: regression test
+/// of /repo c7806a2) and the fixture shape of the repository's own test
 fn witnesses() -> Vec<Case> {
     let l = |bits: &[usize]| {
         let mut w = [false; 6];
@@ -1143,6 +1121,12 @@ fn witnesses() -> Vec<Case> {
         text_case(all, 0, vec![l(&[4]), nl(l(&[0]))], full_cov(3), true, "witness"),
         // B: line region start, then a branch-line marker (= witnessB)
         text_case(all, 0, vec![l(&[1]), nl(l(&[3]))], full_cov(3), true, "witness"),
+        // C: start marker and branch-line marker on one line (= witnessC)
+        text_case(all, 0, vec![nl(l(&[1, 3]))], full_cov(2), true, "witness"),
+        // the same three with only the two options involved switched on
+        text_case(opts_of(0b010001), 0, vec![l(&[4]), nl(l(&[0]))], full_cov(3), true, "witness"),
+        text_case(opts_of(0b001010), 0, vec![l(&[1]), nl(l(&[3]))], full_cov(3), true, "witness"),
+        text_case(opts_of(0b001010), 0, vec![nl(l(&[1, 3]))], full_cov(2), true, "witness"),
         // start and stop on one line of an open region; unterminated at the end
         text_case(
             all,
